@@ -352,3 +352,52 @@ def node_append_behind_fresh_absence_test(ctx, prog, flows, effects, rid, conseq
                         "%s appends to nodes_vec %s: " % (b.short, ("without a lookup of the name in nodes_map" if not controlling else "; ".join(stale_why))) + consequence, loc_str(site.span))
     ctx.floor(rid, "node_appends", n, 1)
     return n
+
+
+def no_edge_identity_collections(ctx, prog, rid, prefixes, consequence):
+    """`Edge`'s Eq / Ord / Hash look at the two endpoints only (they are sort and lookup keys), so any container that
+    uses an edge AS ITS OWN KEY -- HashSet / BTreeSet of edges, a map keyed by an edge, dedup / unique over edges --
+    silently merges parallel edges and edges that differ in weight.  No such container may appear in the bodies under
+    `prefixes` (None = whole crate)."""
+    import re
+
+    ctx.rule(rid, "no set, map key, dedup or unique uses an Edge as its own identity (Edge equality ignores weight: parallel edges would merge)")
+    # the premise, from the code: Edge's eq / cmp / hash do not read `weight`
+    reads_weight = False
+    n_impl = 0
+    for p_, b_ in prog.bodies.items():
+        if p_.startswith("<edge::Edge<") and p_.split(">::")[-1] in ("eq", "cmp", "hash", "partial_cmp"):
+            n_impl += 1
+            for s_ in b_.stmts():
+                if s_.k == "assign":
+                    for pl_ in [s_.rv.place] + [o_.place for o_ in s_.rv.ops]:
+                        if pl_ is not None and "weight" in pl_.fields():
+                            reads_weight = True
+    if n_impl and reads_weight:
+        ctx.ok(rid, "edge-identity", "Edge's equality takes the weight into account: edges can be their own keys")
+        return 0
+    n = 0
+    set_re = re.compile(r"(?:HashSet|BTreeSet|IndexSet|BinaryHeap)<&*(?:mut )?&*(?:std::sync::Arc<|std::rc::Rc<|std::boxed::Box<)?&*edge::Edge<")
+    map_re = re.compile(r"(?:HashMap|BTreeMap|IndexMap)<&*(?:mut )?&*(?:std::sync::Arc<|std::rc::Rc<|std::boxed::Box<)?&*edge::Edge<")
+    for p in sorted(prog.bodies):
+        b = prog.bodies[p]
+        root = b
+        while root.kind == "closure":
+            root = prog.bodies[root.item["parent"]]
+        if prefixes is not None and not any(root.short.startswith(x) for x in prefixes):
+            continue
+        n += 1
+        bad = []
+        for l in b.locals:
+            ty = str(l["ty"])
+            if set_re.search(ty) or map_re.search(ty):
+                bad.append("a local of type %s" % ty[:90])
+                break
+        for t in b.calls():
+            if t.callee and t.callee.short.split("::")[-1] in ("dedup", "dedup_by_key", "unique", "unique_by", "dedup_by") and t.args and t.args[0].place is not None and "edge::Edge<" in t.args[0].place.ty and "AdjacentNode" not in t.args[0].place.ty:
+                bad.append("%s over edges" % t.callee.short.split("::")[-1])
+        if bad:
+            ctx.violation(rid, "edge-identity|%s" % b.short, "%s uses %s: " % (b.short, bad[0]) + consequence, loc_str(b.span))
+    if n:
+        ctx.ok(rid, "edge-identity", "%d bodies: no container keyed by an Edge, no dedup/unique over edges" % n)
+    return n
